@@ -57,7 +57,16 @@ def run_case(case):
                      case["cfg"].get("penalty") in FILTERS)
     from pgfmc.drive import run as R
     if ctx.rec.result is not None:
+        # an observer registered BETWEEN two solves on one solver object must hear every step of the second one
+        from pygradflow.callbacks import CallbackType
+        late = []
+        ctx.rec.solver.callbacks.register(CallbackType.ComputedStep, lambda a, b, acc: late.append((a, b, bool(acc))))
         rec2 = R.run_solve(ctx.rec.solver.orig_problem, ctx.params, case["spec"]["x0"], case["spec"].get("y0"), solver=ctx.rec.solver)
+        if rec2.result is not None and len(late) != rec2.result.iterations:
+            viol.append(M.V("C12|second_solve|late_observer", f"an observer registered after the first solve heard {len(late)} steps of a second solve "
+                            f"with {rec2.result.iterations} iterations"))
+        elif rec2.result is not None and any(not (M.same(l[0], t.it_in) and M.same(l[1], t.it_out) and l[2] == t.accepted) for l, t in zip(late, rec2.trials)):
+            viol.append(M.V("C12|second_solve|late_observer_mismatch", "an observer registered after the first solve was announced other steps than those computed"))
         for v in M.mon_c12(rec2, ctx.F, ctx.weights, ctx.params, case["spec"]["x0"], case["spec"].get("y0"),
                            case["cfg"].get("penalty") in FILTERS):
             viol.append(dict(v, sig=v["sig"].replace("C12|", "C12|second_solve|")))
